@@ -19,6 +19,8 @@ EXTENDS Naturals, Sequences, FiniteSets
 LimP0(total) == [total |-> total, holders |-> {},
                  inprog |-> <<>>,     \* sequence of [t, b] in the order acquire was called
                  obl |-> {},          \* FIFO obligations, see P_Sem
+                 free |-> {},         \* in-progress acquirers that have seen a free token since they called
+                 low |-> {},          \* in-progress acquirers during whose call total_tokens was lowered
                  creq |-> {}, redo |-> {}]
 
 LNames(r) == {n \in DOMAIN r : ~r[n]}
@@ -41,13 +43,17 @@ LimObs(p, e) ==
    BorrowedAccountsForHandOff |-> e.borrowed - Cardinality(p.holders) <= Len(p.inprog),
    WaitingCountTrue |-> e.waiting <= Len(p.inprog)]
 
-LimApply(p, e) ==
+LimApply0(p, e) ==
   CASE e.ev = "start" ->
          [p |-> [p EXCEPT !.inprog = Append(@, [t |-> e.t, b |-> e.b]),
                           !.redo = IF e.b \in p.holders THEN @ \cup {e.t} ELSE @],
           bad |-> {}]
     [] e.ev = "end" /\ e.res = "ok" ->
-         LET cl == [NeverOverGranted |-> Cardinality(p.holders) < p.total,
+         \* granted only when a token was actually free: the caller saw a free token at some instant
+         \* of its call, and on return the holders fit into the total unless the total was lowered
+         \* while the call was in progress
+         LET cl == [NeverOverGranted |-> /\ e.t \in p.free
+                                         /\ (Cardinality(p.holders) < p.total \/ e.t \in p.low),
                     FifoNoOvertaking |-> ~LOblViolated(p.obl, e.t),
                     NoDoubleBorrow   |-> e.b \notin p.holders]
              h1 == p.holders \cup {e.b}
@@ -87,7 +93,8 @@ LimApply(p, e) ==
          LET cl == [BorrowerCanRelease |-> e.b \notin p.holders]
          IN [p |-> p, bad |-> LNames(cl) \cup LNames(LimObs(p, e))]
     [] e.ev = "settotal" ->
-         LET p1 == [p EXCEPT !.total = e.v]
+         LET p1 == [p EXCEPT !.total = e.v,
+                             !.low = IF e.v < p.total THEN @ \cup LTasks(p.inprog) ELSE @]
          IN [p |-> p1, bad |-> LNames(LimObs(p1, e))]
     [] e.ev = "creq" -> [p |-> [p EXCEPT !.creq = @ \cup {e.t}], bad |-> {}]
     [] e.ev = "quiescent" ->
@@ -96,4 +103,11 @@ LimApply(p, e) ==
                        p.inprog = <<>> => (e.borrowed = Cardinality(p.holders) /\ e.waiting = 0)]
          IN [p |-> p, bad |-> LNames(cl) \cup LNames(LimObs(p, e))]
     [] OTHER -> [p |-> p, bad |-> {"UnknownEvent"}]
+
+LimApply(p, e) ==
+  LET r == LimApply0(p, e)
+      q == r.p
+      ts == LTasks(q.inprog)
+      nowFree == IF Cardinality(q.holders) < q.total THEN ts ELSE {}
+  IN [p |-> [q EXCEPT !.free = (@ \cup nowFree) \cap ts, !.low = @ \cap ts], bad |-> r.bad]
 =============================================================================
